@@ -102,6 +102,7 @@ func (e *Enc) callWith(fr *Frame, c *ssa.CallCommon, site ssa.Instruction, st *S
 	}
 	fn := callee.Clo.Fn
 	key := fnKey(fn)
+	e.terminationOb(fr, fn, args, st, rb, site)
 	if ct := e.w.ct.Funcs[key]; ct != nil && !ct.Inline {
 		return e.applyContract(fr, ct, key, fn.Signature, args, false, st, rb, site, resType)
 	}
@@ -314,6 +315,21 @@ func (e *Enc) applyContractFV(fr *Frame, ct *Contract, key string, sig *types.Si
 		post = e.Havoc(e.Leak(st, args...), mod)
 	}
 	res := e.freshVal("res_"+short, resType)
+	if ct.FreshResult && res.Tuple == nil {
+		// the result is a fresh allocation made on behalf of the caller
+		ref := res.T
+		if e.sortOf(resType) == "Slice" {
+			ref = "(sl_ref " + res.T + ")"
+		}
+		al := e.Get(st, "$alloc")
+		e.sc.Assert(implies(rb, and(not(eq(ref, "0")), not(app("select", al, ref)))))
+		i := len(e.allocs)
+		e.allocs = append(e.allocs, allocInfo{ref: ref, typ: resType})
+		e.allocIdx[ref] = i
+		e.comps.Register(e.privComp(i), "Bool")
+		post = e.Set(post, e.privComp(i), "true")
+		post = e.Set(post, "$alloc", app("store", e.Get(post, "$alloc"), ref, "true"))
+	}
 	e.assumeAllocated(res, post)
 	if !ct.Pure {
 		e.assumeNotPrivate(res, post)
@@ -993,4 +1009,33 @@ func inMapRangeLoop(b *ssa.BasicBlock) bool {
 		}
 	}
 	return false
+}
+
+// terminationOb: a call that can lead back into the function under verification needs a measure
+// (contract clause "decreases") that is non-negative and strictly smaller than at entry.
+func (e *Enc) terminationOb(fr *Frame, fn *ssa.Function, args []Val, st *State, rb Term, site ssa.Instruction) {
+	top := fr.top
+	if top == nil || top.contract == nil || !top.contract.Safety || !e.checkSafe {
+		return
+	}
+	if fn.Blocks == nil || !e.w.reaches(fn, top.fn) {
+		return
+	}
+	tdec := top.contract.Decreases
+	var cct *Contract
+	if fn == top.fn {
+		cct = top.contract
+	} else {
+		cct = e.w.ct.Funcs[fnKey(fn)]
+	}
+	if tdec == nil || cct == nil || cct.Decreases == nil {
+		e.ob(fr, "safety.termination", e.nextName(fr, "safety.termination"), rb, "false",
+			"recursive call of "+funcShort(fn)+" needs a decreases measure", sitePos(site))
+		return
+	}
+	envC := e.contractEnv(cct, fn.Signature, args, false)
+	mC := e.eval(envC, cct.Decreases.Expr, st, st)
+	mT := e.eval(e.hostEnv(top), tdec.Expr, top.entry, top.entry)
+	e.ob(fr, "safety.termination", e.nextName(fr, "safety.termination"), rb,
+		and("(<= 0 "+mC.T+")", "(< "+mC.T+" "+mT.T+")"), "decreases "+cct.Decreases.Src, sitePos(site))
 }
